@@ -75,6 +75,34 @@ static size_t count_chunk(const unsigned char* b, size_t n, int* preserved, int*
   return cnt;
 }
 
+/* a copy of an item whose bytes were written in place through its handle after it was attached (the source's recorded count is
+ * stale): the copy is a new text string holding exactly these bytes, so its count is theirs */
+static size_t count_copy_after_edit(const unsigned char* b, size_t n, int* preserved) {
+  unsigned char* filler = malloc(n + 1);
+  memset(filler, 'a', n);
+  cbor_item_t* s = cbor_build_stringn((const char*)filler, n);
+  free(filler);
+  if (n) memcpy(cbor_string_handle(s), b, n);
+  cbor_item_t* cp = cbor_copy(s);
+  size_t c = cp ? cbor_string_codepoint_count(cp) : (size_t)-1;
+  if (!cp || cbor_string_length(cp) != n || memcmp(cbor_string_handle(cp), b, n)) *preserved = 0;
+  if (cp) cbor_decref(&cp);
+  cbor_decref(&s);
+  return c;
+}
+/* the NUL-terminated builder (only for texts without a NUL byte) */
+static size_t count_buildz(const unsigned char* b, size_t n, int* preserved) {
+  if (memchr(b, 0, n)) return (size_t)-2;
+  char* z = malloc(n + 1);
+  memcpy(z, b, n);
+  z[n] = 0;
+  cbor_item_t* s = cbor_build_string(z);
+  free(z);
+  size_t c = cbor_string_codepoint_count(s);
+  if (cbor_string_length(s) != n || memcmp(cbor_string_handle(s), b, n)) *preserved = 0;
+  cbor_decref(&s);
+  return c;
+}
 static void class_seq(const int* cls, int k, int full_paths) {
   unsigned char rep[4], rep2[4], b[4];
   for (int i = 0; i < k; i++) { rep[i] = (unsigned char)clo[cls[i]]; rep2[i] = (unsigned char)chi[cls[i]]; }
@@ -93,6 +121,8 @@ static void class_seq(const int* cls, int k, int full_paths) {
       if (v % 7 == 0 && count_chunk(b, k, &preserved, &loaded) != c0) uniform = 0;
       if (count_build(b, k, &preserved) != c0) uniform = 0;
       if (count_load(b, k, &preserved, &loaded) != c0) uniform = 0;
+      { size_t z = count_buildz(b, k, &preserved); if (z != (size_t)-2 && z != c0) uniform = 0; }
+      if (v % 5 == 0 && count_copy_after_edit(b, k, &preserved) != c0) uniform = 0;
     }
   }
   fputs("{\"e\":\"cls\",\"classes\":[", vh_out);
@@ -139,6 +169,9 @@ static void txt_line(const unsigned char* b, size_t n) {
   vh_kint("cp_load", (long long)d);
   vh_kint("cp_reattach", (long long)e);
   vh_kint("cp_chunk", n < 256 ? (long long)g : (long long)a);
+  { size_t ce = count_copy_after_edit(b, n, &preserved), cz = count_buildz(b, n, &preserved);
+    vh_kint("cp_copyedit", (long long)ce);
+    vh_kint("cp_buildz", cz == (size_t)-2 ? (long long)a : (long long)cz); }
   vh_kbool("loaded", loaded);
   vh_kbool("same", preserved);
   fputs("}\n", vh_out);
